@@ -147,6 +147,8 @@ def with_step(draw):
 BAD_DEVICES = [
     "cuda", "cuda:0", "cuda:7", "CUDA:1", "gpu", "GPU", "mps", "MPS", 0, 1, 5, -1, -3, 3.5, True,
     "tpu", "", "xyz", "xla:0", "meta", ["cuda"], "cuda:-1", "cuda:abc",
+    "torch.device:meta", "torch.device:cuda", "torch.device:cuda:1", "torch.device:mps", "torch.device:xla",
+    "torch.device:xpu", "torch.device:hpu", "torch.device:vulkan",
 ]  # fmt: skip
 GOOD_DEVICES = ["cpu", "CPU", "torch.device:cpu", "cpu:0"]
 
@@ -399,8 +401,8 @@ class Harness:
 
         ctx, case, qc = self.ctx, self.case, self.qc
         val = step["value"]
-        if val == "torch.device:cpu":
-            val = torch.device("cpu")
+        if isinstance(val, str) and val.startswith("torch.device:"):
+            val = torch.device(val[len("torch.device:"):])
         with ctx.sut(case, "config.get('device')"):
             before = qc.get("device")
         raised = None
